@@ -161,6 +161,10 @@ Retyped(g) == CASE g.t = "LineString" -> {G("MultiPoint", g.m)}
                 [] g.t = "Polygon" -> {G("MultiLineString", g.m)}
                 [] g.t = "MultiLineString" -> {G("Polygon", g.m)}
                 [] g.t = "Point" -> {G("MultiPoint", <<g.m>>)}
+                [] g.t = "Bounds" ->      \* the rectangle as a polygon (open and closed ring, two start corners): another type
+                     LET a == g.m[1]  b == g.m[2]
+                         r == << a, <<b[1], a[2]>>, b, <<a[1], b[2]>> >>
+                     IN {G("Polygon", <<r>>), G("Polygon", <<Append(r, a)>>), G("Polygon", << <<r[2], r[3], r[4], r[1]>> >>), G("MultiPoint", <<a, b>>)}
                 [] OTHER -> {}
 Mutants(g) ==
     {g} \cup {MapV(g, JigF(s)) : s \in 0..2}
